@@ -67,7 +67,7 @@ def get_spec(env, p, specs):
     if name.startswith("rand"):
         inst = env.choice("instance", list(range(p.get("inst_from", 0), p.get("inst_to", 40))))
         return fx.random_spec(inst, int(name[4:]), max_dom=p.get("max_dom", 3), nary=p.get("nary", False), connected=p.get("connected", True),
-                              unary=p.get("unary", True), costkinds=tuple(p.get("costkinds", ("plain", "plain", "func", "dict"))))
+                              unary=p.get("unary", True), same_dom=p.get("same_dom", False), costkinds=tuple(p.get("costkinds", ("plain", "plain", "func", "dict"))))
     return specs[name]
 
 
